@@ -25,6 +25,7 @@ CLAUSE_OF = {
     "P12": ("C15", "the DISCONNECT written for a cause with a dedicated MQTT 5 code does not carry it"),
     "P13": ("C12", "receive maximum: the peer was refused with 0x93 although it stayed within its quota, or exceeded "
                    "it and was not refused with 0x93"),
+    "P14": ("C11", "a PUBLISH whose identifier was still in use reached a handler"),
     "P9": ("C17", "a handler saw a topic that is not the latest binding of the alias used"),
 }
 # recorded findings that the scan can hit (see known_findings.json)
@@ -138,7 +139,7 @@ def p10(v, case, obs):
     return []
 
 
-def p12(v, case, obs):
+def p12(v, case, obs, client=False):
     """C15, dedicated codes (v5 server): the FIRST packet of the case that violates the protocol, when every
     operation before it is harmless and exactly one cause with a dedicated MQTT 5 code applies to it; if the
     DISCONNECT is written in that very step it must carry that code.  Also: a DISCONNECT the endpoint writes on
@@ -148,9 +149,14 @@ def p12(v, case, obs):
     fields = [[int(t) for t in f.split(",")] for f in case.split(";")]
     cfg, ops = fields[0], fields[1:]
     of = obs.split(";")
-    if len(of) != len(ops) or len(cfg) < 5:
-        return []
-    max_qos, rmax, amax = cfg[0], cfg[1] or 16, cfg[2]
+    if client:
+        if len(of) != len(ops) or len(cfg) < 2:
+            return []
+        max_qos, rmax, amax = 2, cfg[0] or 65535, 16     # the client dispatcher uses the literal 16 (recorded finding)
+    else:
+        if len(of) != len(ops) or len(cfg) < 5:
+            return []
+        max_qos, rmax, amax = cfg[0], cfg[1] or 16, cfg[2]
     binds = set()
     out_pub = set()       # QoS>0 publish ids the peer has sent and not seen finished
     out_other = set()
@@ -183,9 +189,9 @@ def p12(v, case, obs):
                     binds.add(alias)
                 if qos:
                     out_pub.add(pid)
-        elif op[0] == 1 and op[1] == 8:
+        elif op[0] == 1 and op[1] == (13 if client else 8):
             pass
-        elif op[0] == 1 and op[1] in (6, 7) and len(op) >= 4 and op[3] in (1, 2):
+        elif not client and op[0] == 1 and op[1] in (6, 7) and len(op) >= 4 and op[3] in (1, 2):
             if op[2] == 0 or op[2] in out_pub or op[2] in out_other:
                 return []
             out_other.add(op[2])
@@ -219,6 +225,49 @@ def p12(v, case, obs):
     return []
 
 
+def p14(v, case, obs):
+    """C11: a packet whose identifier is still in use is never delivered.  Read off the handler invocations:
+    when a handler is invoked for id X, the previous handler invoked for X must have completed (its completion
+    operation was given at or before this step), and if that one was a successful QoS 2 delivery the peer must
+    at least have sent the PUBREL for X -- otherwise the earlier exchange cannot have ended, whatever the order in
+    which the endpoint got to read the packets."""
+    if obs == "9999":
+        return []
+    fields = [[int(t) for t in f.split(",")] for f in case.split(";")]
+    ops = fields[1:]
+    of = obs.split(";")
+    if len(of) != len(ops):
+        return []
+    done_at = {}          # handler -> (index of its completion op, result)
+    for n, op in enumerate(ops):
+        if op[0] == 2 and len(op) >= 3 and op[1] not in done_at:
+            done_at[op[1]] = (n, op[2])
+    rel_at = {}           # id -> index of the first PUBREL sent
+    for n, op in enumerate(ops):
+        if op[0] == 1 and op[1] == 4 and len(op) >= 3:
+            rel_at.setdefault(op[2], n)
+    last = {}             # id -> (handler, qos) of the latest invocation
+    for n, f in enumerate(of):
+        try:
+            wire, hs, ps, stop1, nstop, is_open = I.parse_obs(f)
+        except ValueError:
+            return []
+        for (h, qos, pid, topic, plen, retain) in hs:
+            if h >= 1000 or not pid:
+                continue
+            if pid in last:
+                h0, q0 = last[pid]
+                d = done_at.get(h0)
+                if d is None or d[0] > n:
+                    return ["P14 handler %d invoked for id %d while handler %d for the same id has not completed "
+                            "(op %d)" % (h, pid, h0, n + 1)]
+                if q0 == 2 and d[1] == 0 and rel_at.get(pid, len(ops)) > n:
+                    return ["P14 handler %d invoked for id %d although the QoS 2 exchange of handler %d was not "
+                            "released (no PUBREL sent yet, op %d)" % (h, pid, h0, n + 1)]
+            last[pid] = (h, qos)
+    return []
+
+
 class InbPart(Part):
     SHRINK_FIELDS_FIRST = True
     SHRINK_FIELDS_ONLY = True
@@ -241,8 +290,10 @@ class InbPart(Part):
             bad = bad + p9(self.ver, case, obs)
         if ("C11" in self.want or "C03" in self.want) and self.engine.startswith("inb"):
             bad = bad + p10(self.ver, case, obs)
-        if "C15" in self.want and self.engine == "inb5":
-            bad = bad + p12(self.ver, case, obs)
+        if "C15" in self.want and self.engine in ("inb5", "cli5"):
+            bad = bad + p12(self.ver, case, obs, client=self.engine == "cli5")
+        if "C11" in self.want and self.engine.startswith("inb"):
+            bad = bad + p14(self.ver, case, obs)
         elif "C12" in self.want and self.engine == "inb5":
             # receive maximum: 0x93 for a peer within its quota, or another code for a peer over it
             bad = bad + [b.replace("P12 ", "P13 ") for b in p12(self.ver, case, obs) if "147" in b]
